@@ -1457,7 +1457,7 @@ func checkLoopProgress(p *Program, r *Report) {
 		}
 		cc := c.Common()
 		if cc.IsInvoke() {
-			return cc.Method.Name() == "ReadByte" || cc.Method.Name() == "Read"
+			return cc.Method.Name() == "ReadByte" || cc.Method.Name() == "Read" || cc.Method.Name() == "Discard"
 		}
 		f := staticCallee(c)
 		if f == nil {
@@ -1466,7 +1466,7 @@ func checkLoopProgress(p *Program, r *Report) {
 		if R[f] || fnIs(f, "io", "ReadFull") || fnIs(f, "io", "CopyN") {
 			return true
 		}
-		return f.Signature.Recv() != nil && (f.Name() == "ReadByte" || f.Name() == "Read")
+		return f.Signature.Recv() != nil && (f.Name() == "ReadByte" || f.Name() == "Read" || f.Name() == "Discard")
 	}
 	nLoops := 0
 	for _, f := range p.SrcFuncs() {
